@@ -12,7 +12,7 @@ ID = "C01"
 READY = True
 LEVEL = "exploration"
 WORKERS = {"quick": 8, "thorough": 16}
-BUDGET = {"quick": 60, "thorough": 400}
+BUDGET = {"quick": 150, "thorough": 400}
 MIN_NONTRIVIAL = {"quick": 4000, "thorough": 100000}
 REQUIRED_HOOKS = ["compound", "shared-environment", "IntType.__add__", "IntType.__truediv__", "IntType.__mod__", "IntType.__neg__", "UintType.__sub__", "UintType.__neg__", "DoubleType.__truediv__", "evaluate:I", "evaluate:C", "direct"]
 RULE = (
